@@ -89,6 +89,29 @@ type c02Env struct {
 	cur     *x509.Certificate   // the scenario's certificate
 	fbLeaf  *x509.Certificate
 	certFor string              // name the scenario's certificate is for
+	managed map[string]struct{} // the harness's own record of the names handed to Manage* (the oracle's allow-list)
+	nManage int
+}
+
+// manage hands names to the real ManageSync / ManageAsync (alternating) of the on-demand
+// configuration — which only puts them on the implicit allow-list — and records them.
+func (e *c02Env) manage(t *testing.T, names ...string) {
+	if e.managed == nil {
+		e.managed = map[string]struct{}{}
+	}
+	for _, n := range names {
+		e.managed[vNormNameRef(n)] = struct{}{}
+	}
+	e.nManage++
+	var err error
+	if e.nManage%2 == 1 {
+		err = e.cfg.ManageSync(context.Background(), names)
+	} else {
+		err = e.cfg.ManageAsync(context.Background(), names)
+	}
+	if err != nil {
+		t.Fatalf("Manage(%v) of an on-demand configuration: %v", names, err)
+	}
 }
 
 func c02Setup(ca *vCA, c c02Case) *c02Env {
@@ -226,12 +249,17 @@ func c02Prepare(t *testing.T, ca *vCA, e *c02Env, c c02Case, hello *tls.ClientHe
 	// (with a decision function configured, the function decides — whatever the list of
 	// managed names says: "fdah" = function denies, name on the list; "fpam" = function permits,
 	// name not on it)
+	// (the list is built by the real Manage* calls; a later call — with other names or with none —
+	// adds to it and never takes anything off it)
 	case "ah", "fdah":
-		e.cfg.OnDemand.hostAllowlist = map[string]struct{}{name: {}, "unrelated.example.org": {}}
+		e.manage(t, name, "unrelated.example.org")
+		e.manage(t)
+		e.manage(t, "Later.Example.ORG ")
 	case "am", "fpam":
-		e.cfg.OnDemand.hostAllowlist = map[string]struct{}{"unrelated.example.org": {}}
+		e.manage(t, "unrelated.example.org")
+		e.manage(t)
 	case "ae":
-		e.cfg.OnDemand.hostAllowlist = map[string]struct{}{}
+		e.manage(t)
 	}
 }
 
@@ -302,8 +330,8 @@ func c02Handshake(t *testing.T, o *vOut, e *c02Env, c c02Case, hello *tls.Client
 	// policy facts
 	od, fn := c.policy != "off", strings.HasPrefix(c.policy, "f")
 	allow := true
-	if od && !fn && len(e.cfg.OnDemand.hostAllowlist) > 0 {
-		_, allow = e.cfg.OnDemand.hostAllowlist[n]
+	if od && !fn && len(e.managed) > 0 {
+		_, allow = e.managed[n]
 	}
 	var sb strings.Builder
 	fmt.Fprintf(&sb, "hs %s %s %s %s %s %s %s %s %s M", hsB01(od), hsB01(fn), hsB01(e.mgr != nil), hsB01(c.af), hsB01(c.ari),
@@ -489,13 +517,16 @@ func TestVerifC02(t *testing.T) {
 						e.permit = !e.permit
 					default:
 						n := e.certFor
-						if _, ok := e.cfg.OnDemand.hostAllowlist[n]; ok {
+						if _, ok := e.managed[n]; ok {
+							// (there is no API that takes a name off the list: the harness does it, in
+							// the real list and in its own record)
 							delete(e.cfg.OnDemand.hostAllowlist, n)
-							if len(e.cfg.OnDemand.hostAllowlist) == 0 {
-								e.cfg.OnDemand.hostAllowlist["unrelated.example.org"] = struct{}{}
+							delete(e.managed, n)
+							if len(e.managed) == 0 {
+								e.manage(t, "unrelated.example.org")
 							}
 						} else {
-							e.cfg.OnDemand.hostAllowlist[n] = struct{}{}
+							e.manage(t, n)
 						}
 					}
 				case 2: // the storage cleaner removes the bundle
